@@ -1,7 +1,301 @@
-/- C03 line-protocol driver (core-only). Stub until the property's model lands. -/
+/- C03 line-protocol driver (core-only).
+
+`chain` lines: a block tree is delivered block by block (as `ProcessBlock` would see it), mixed
+with flushes and observations. The driver tracks the active chain (most blocks wins, first
+seen wins ties: every block has the same work), answers the property's observations
+(`FetchUtxoEntry`, spend journal, persisted bucket after a required flush, total txns) from
+the Spec fold of the active chain, and runs the Model next to it for the raw cache/bucket
+dump op `D`.
+
+`cache` lines step the cache primitives of the Model directly. -/
+import BV.Common.Hex
+import BV.C03.Model
 namespace BV.C03.Driver
+open BV.Hex BV.C03 BV.C03.Spec
+
+/-! ### parsing -/
+
+def parseScript? (s : String) : Option (List UInt8) :=
+  if s == "-" then some [] else hexToList? s
+
+def parseOutPoint? (s : String) : Option OutPoint :=
+  match s.splitOn "." with
+  | [t, i] => do pure ((← t.toNat?), (← i.toNat?))
+  | _ => none
+
+def parseOut? (s : String) : Option Out :=
+  match s.splitOn "." with
+  | [a, sc] => do pure ⟨(← a.toInt?), (← parseScript? sc)⟩
+  | _ => none
+
+def parseList? {α} (f : String → Option α) (s : String) : Option (List α) :=
+  if s == "-" then some [] else (s.splitOn ",").mapM f
+
+def parseTx? (s : String) : Option Tx :=
+  match s.splitOn ";" with
+  | [id, ins, outs] => do pure ⟨(← id.toNat?), (← parseList? parseOutPoint? ins), (← parseList? parseOut? outs)⟩
+  | _ => none
+
+/-- `B<id>:<parent>:<tx>/<tx>…` without the leading `B`. -/
+def parseBlock? (s : String) : Option (Block × Nat) :=
+  match s.splitOn ":" with
+  | [id, parent, txs] => do
+    let id ← id.toNat?
+    let parent ← parent.toNat?
+    match (← (txs.splitOn "/").mapM parseTx?) with
+    | cb :: rest => pure (⟨id, cb, rest⟩, parent)
+    | [] => none
+  | _ => none
+
+structure Cfg where
+  bip34 : Bool
+  maturity : Nat
+  cache : Nat
+
+def parseCfg? (s : String) : Option Cfg :=
+  match s.splitOn ":" with
+  | [b, m, c] => do pure ⟨b == "1", (← m.toNat?), (← c.toNat?)⟩
+  | _ => none
+
+/-! ### printing -/
+
+def scriptStr (s : List UInt8) : String := if s.isEmpty then "-" else listToHex s
+
+def entryStr (e : Entry) : String :=
+  s!"{e.amount}.{scriptStr e.script}.{e.height}.{if e.coinbase then 1 else 0}"
+
+def opStr (o : OutPoint) : String := s!"{o.1}.{o.2}"
+
+def centryStr (ce : CEntry) : String :=
+  let fl := (if ce.spent then 1 else 0) + (if ce.modified then 2 else 0) + (if ce.fresh then 4 else 0)
+  s!"{entryStr ce.e}.{fl}"
+
+def join (sep : String) (xs : List String) : String := sep.intercalate xs
+
+/-! ### sorted set of known outpoints -/
+
+def opLt (a b : OutPoint) : Bool := a.1 < b.1 || (a.1 == b.1 && a.2 < b.2)
+
+def insertOp (o : OutPoint) : List OutPoint → List OutPoint
+  | [] => [o]
+  | p :: ps => if o == p then p :: ps else if opLt o p then o :: p :: ps else p :: insertOp o ps
+
+def blockOutpoints (b : Block) : List OutPoint :=
+  createdOutpoints b ++ (b.txs.map (·.ins)).flatten
+
+def hasDupIns (b : Block) : Bool := b.txs.any (fun t => t.ins.eraseDups.length != t.ins.length)
+
+/-! ### executable validity (what `checkConnectBlock` rejects in generated histories) -/
+
+def insOk (h maturity : Nat) : UtxoSet → List OutPoint → Bool
+  | _, [] => true
+  | u, o :: os =>
+    match u o with
+    | none => false
+    | some e => (!e.coinbase || e.height + maturity ≤ h) && insOk h maturity (spend u o) os
+
+def txsOk (h maturity : Nat) : UtxoSet → List Tx → Bool
+  | _, [] => true
+  | u, t :: ts => !t.ins.isEmpty && !t.outs.isEmpty && insOk h maturity u t.ins && txsOk h maturity (applyTx h false u t) ts
+
+def bip30Ok (bip30 : Bool) (u : UtxoSet) (b : Block) : Bool :=
+  !bip30 || (createdOutpoints b).all (fun o => (u o).isNone)
+
+def blockOk (bip30 : Bool) (maturity : Nat) (u : UtxoSet) (h : Nat) (b : Block) : Bool :=
+  !hasDupIns b && bip30Ok bip30 u b && txsOk h maturity (applyTx h true u b.cb) b.txs
+
+/-! ### chain lines -/
+
+structure Node where
+  blk : Block
+  parent : Nat
+  height : Nat
+
+structure Sim where
+  cfg : Cfg
+  nodes : List Node := []
+  chain : List Block := []          -- active chain, genesis side first
+  known : List OutPoint := []
+  model : Option State := some init
+  out : List String := []           -- reversed
+
+def Sim.find (s : Sim) (id : Nat) : Option Node := s.nodes.find? (fun n => n.blk.id == id)
+
+def Sim.tip (s : Sim) : Nat := match s.chain.getLast? with | some b => b.id | none => 0
+
+/-- Path from genesis to block `id` (genesis side first). -/
+def Sim.path (s : Sim) : Nat → Nat → List Block
+  | 0, _ => []
+  | fuel + 1, id =>
+    if id == 0 then [] else
+    match s.find id with
+    | none => []
+    | some n => s.path fuel n.parent ++ [n.blk]
+
+def commonPrefix : List Block → List Block → Nat
+  | a :: as, b :: bs => if a.id == b.id then commonPrefix as bs + 1 else 0
+  | _, _ => 0
+
+def Sim.full (s : Sim) : Bool := s.cfg.cache == 0
+
+def Sim.emit (s : Sim) (r : String) : Sim := { s with out := r :: s.out }
+
+def Sim.modelStep (s : Sim) (op : Op) : Sim :=
+  { s with model := match s.model with | none => none | some m => step m op }
+
+/-- Validate and connect `bs` on top of `base` (Spec level); returns the accepted chain. -/
+def extendOk (cfg : Cfg) : List Block → List Block → Option (List Block)
+  | base, [] => some base
+  | base, b :: bs =>
+    if blockOk (!cfg.bip34) cfg.maturity (utxoOf base) (base.length + 1) b then extendOk cfg (base ++ [b]) bs
+    else none
+
+def Sim.processBlock (s : Sim) (b : Block) (parent : Nat) : Sim :=
+  let ph := if parent == 0 then some 0 else (s.find parent).map (·.height)
+  match ph with
+  | none => s.emit s!"rej:{s.tip}"
+  | some ph =>
+    let s := { s with nodes := s.nodes ++ [(⟨b, parent, ph + 1⟩ : Node)],
+                      known := (blockOutpoints b).foldl (fun k o => insertOp o k) s.known }
+    if parent == s.tip then
+      match extendOk s.cfg s.chain [b] with
+      | none =>
+        -- what a rejected block leaves in the cache: nothing when the sanity checks fail, the
+        -- BIP30 scan when that fails, the scan and the input loads when an input check fails
+        let fs := if hasDupIns b then []
+          else if !bip30Ok (!s.cfg.bip34) (utxoOf s.chain) b then createdOutpoints b
+          else validationFetches (!s.cfg.bip34) b
+        (fs.foldl (fun s o => s.modelStep (.fetch o)) s).emit s!"rej:{s.tip}"
+      | some ch =>
+        let s := { s with chain := ch }
+        (s.modelStep (.connect b (!s.cfg.bip34) s.full)).emit s!"acc:{s.tip}"
+    else if ph + 1 ≤ s.chain.length then s.emit s!"acc:{s.tip}"
+    else
+      let np := s.path (ph + 2) b.id
+      let k := commonPrefix s.chain np
+      match extendOk s.cfg (np.take k) (np.drop k) with
+      | none => s.emit s!"rej:{s.tip}"
+      | some ch =>
+        let nd := s.chain.length - k
+        let s := { s with chain := ch }
+        let s := s.modelStep (.detach nd)
+        let s := (np.drop k).foldl (fun s b => s.modelStep (.attach b s.full)) s
+        s.emit s!"acc:{s.tip}"
+
+def utxoStr (u : UtxoSet) (known : List OutPoint) : String :=
+  join "," (known.filterMap (fun o => (u o).map (fun e => s!"{opStr o}:{entryStr e}")))
+
+def journalsStr : UtxoSet → Nat → List Block → List String
+  | _, _, [] => []
+  | u, h, b :: bs =>
+    s!"{b.id}:{join "," ((journalOf u h b).map entryStr)}" :: journalsStr (applyBlock u h b) (h + 1) bs
+
+def slotStr (o : OutPoint) : Slot → Option String
+  | none => none
+  | some none => some s!"{opStr o}:nil"
+  | some (some ce) => some s!"{opStr o}:{centryStr ce}"
+
+def dumpStr (m : State) (known : List OutPoint) : String :=
+  let c := join "," (known.filterMap (fun o => slotStr o (m.cache.get o)))
+  let d := join "," (known.filterMap (fun o => (m.db o).map (fun e => s!"{opStr o}:{entryStr e}")))
+  s!"c={c};d={d};l={m.lastFlush}"
+
+def parseMode? (c : Char) : Option Mode :=
+  if c == 'r' then some .required else if c == 'p' then some .periodic
+  else if c == 'i' then some .ifNeeded else none
+
+def Sim.op (s : Sim) (tok : String) : Option Sim :=
+  match tok.toList with
+  | 'B' :: rest => do
+    let (b, parent) ← parseBlock? (String.ofList rest)
+    pure (s.processBlock b parent)
+  | ['F', m] => do
+    let mode ← parseMode? m
+    pure ((s.modelStep (.flush mode s.full false)).emit "ok")
+  | ['P'] =>
+    let s := s.modelStep (.flush .required s.full false)
+    pure (s.emit s!"d={utxoStr (utxoOf s.chain) s.known};m={s.tip}")
+  | ['O'] =>
+    let u := utxoOf s.chain
+    let s := s.known.foldl (fun s o => s.modelStep (.fetch o)) s
+    pure (s.emit s!"u={utxoStr u s.known};j={join "/" (journalsStr Spec.empty 1 s.chain)};n={totalTxns s.chain}")
+  | 'Q' :: rest => do
+    let o ← parseOutPoint? (String.ofList rest)
+    let s := { s.modelStep (.fetch o) with known := insertOp o s.known }
+    pure (s.emit (match utxoOf s.chain o with | none => "none" | some e => entryStr e))
+  | ['D'] =>
+    match s.model with
+    | none => pure (s.emit "model-assert")
+    | some m => pure (s.emit (dumpStr m s.known))
+  | _ => none
+
+def runChain (cfg : Cfg) (toks : List String) : String :=
+  match toks.foldlM (fun (s : Sim) t => s.op t) ({ cfg := cfg } : Sim) with
+  | none => "bad-op"
+  | some s => join "|" s.out.reverse
+
+/-! ### cache lines -/
+
+structure CSim where
+  cache : Cache := emptyCache
+  db : Db := fun _ => none
+  lastFlush : Nat := 0
+  known : List OutPoint := []
+  out : List String := []
+
+def CSim.dump (s : CSim) (res : String) : CSim :=
+  let c := join "," (s.known.filterMap (fun o => slotStr o (s.cache.get o)))
+  let d := join "," (s.known.filterMap (fun o => (s.db o).map (fun e => s!"{opStr o}:{entryStr e}")))
+  { s with out := s!"{res};c={c};d={d};l={s.lastFlush}" :: s.out }
+
+def parseBool? (s : String) : Option Bool :=
+  if s == "1" then some true else if s == "0" then some false else none
+
+def CSim.op (s : CSim) (tok : String) : Option CSim :=
+  match tok.toList with
+  | 'a' :: rest =>
+    match (String.ofList rest).splitOn ":" with
+    | [o, amt, sc, cb, h] => do
+      let o ← parseOutPoint? o
+      let out : Out := ⟨(← amt.toInt?), (← parseScript? sc)⟩
+      let cb ← parseBool? cb
+      let h ← h.toNat?
+      let s := { s with known := insertOp o s.known, cache := addTxOut s.cache o out cb h }
+      pure (s.dump "ok")
+    | _ => none
+  | 's' :: rest => do
+    let o ← parseOutPoint? (String.ofList rest)
+    let s := { s with known := insertOp o s.known }
+    match addTxIn s.cache s.db o with
+    | none => pure ({ s with cache := (fetch s.cache s.db o).1 }.dump "assert")
+    | some (c, e) => pure ({ s with cache := c }.dump s!"ok:{entryStr e}")
+  | 'f' :: rest => do
+    let o ← parseOutPoint? (String.ofList rest)
+    let s := { s with known := insertOp o s.known }
+    let r := fetch s.cache s.db o
+    let res := match r.2 with | none => s!"{opStr o}:nil" | some ce => s!"{opStr o}:{centryStr ce}"
+    pure ({ s with cache := r.1 }.dump res)
+  | 'w' :: m :: f :: d :: ':' :: best => do
+    let mode ← parseMode? m
+    let full ← parseBool? (String.singleton f)
+    let due ← parseBool? (String.singleton d)
+    let best ← (String.ofList best).toNat?
+    if flushNow mode full due best s.lastFlush then
+      pure ({ s with cache := emptyCache, db := writeCache s.cache s.db, lastFlush := best }.dump "ok")
+    else pure (s.dump "ok")
+  | _ => none
+
+def runCache (toks : List String) : String :=
+  match toks.foldlM (fun (s : CSim) t => s.op t) ({} : CSim) with
+  | none => "bad-op"
+  | some s => join "|" s.out.reverse
 
 def handle : List String → String
-  | _ => "unimplemented"
+  | "chain" :: cfg :: toks =>
+    match parseCfg? cfg with
+    | some cfg => runChain cfg toks
+    | none => "bad-op"
+  | "cache" :: toks => runCache toks
+  | _ => "bad-op"
 
 end BV.C03.Driver
